@@ -130,7 +130,7 @@ Proof.
   destruct (swapped_cols_length d (len s) (cols s) ltac:(lia) (i_lcols s HI)) as [_ ->]. done.
 Qed.
 
-Lemma preset_SInv ad s sv av : SInv ad s -> in_ver sv -> in_ver av ->
+Lemma preset_SInv ad s sv av : SInv ad s -> (sv < 2^32)%N -> (av < 2^32)%N ->
   match preset_versions s sv av with
   | Ok s' _ => SInv ad s'
   | Panic _ _ => True
@@ -140,7 +140,11 @@ Proof.
   intros (HI & Ha & Hc) Hsv Hav.
   assert (E : (cap s <=? length (slots s)) = true) by (apply Nat.leb_le; rewrite (i_lslots s HI); lia).
   destruct (preset_versions s sv av) as [s' []|p s'|] eqn:Hp; [|done|].
-  - destruct (preset_versions_inv s sv av s' HI Hsv Hav Hp) as (HI' & _).
+  - assert (Hnz : in_ver sv /\ in_ver av).
+    { unfold preset_versions in Hp. destruct (N.eqb_spec sv 0), (N.eqb_spec av 0); rewrite ?orb_true_r in Hp; try done.
+      unfold in_ver. lia. }
+    destruct Hnz as [Hsv' Hav'].
+    destruct (preset_versions_inv s sv av s' HI Hsv' Hav' Hp) as (HI' & _).
     unfold preset_versions in Hp. rewrite E in Hp.
     destruct (negb (len s =? 0) || N.eqb sv 0 || N.eqb av 0); [done|]. cbn [negb] in Hp. injection Hp as <-. done.
   - unfold preset_versions in Hp. rewrite E in Hp.
@@ -184,12 +188,15 @@ Qed.
 
 Definition wf_href (r : href) : Prop := match r with RRaw key ver => (key < 2^32)%N /\ (ver < 2^32)%N | _ => True end.
 
+Definition wf_ty (d : wdecl) (t : ty) : Prop := match t with TMut a => a < length (wd_archs d) | _ => True end.
+
 Definition wf_op (d : wdecl) (o : op) : Prop :=
   match o with
   | ONew caps => length caps = length (wd_archs d)
   | ODestroy _ _ _ r | OProbe _ _ _ r | OToDirect _ _ _ r => wf_href r
-  | OWrite _ _ _ _ r _ _ | OFind _ _ _ _ r _ => wf_href r
-  | OPreset _ sv av => in_ver sv /\ in_ver av
+  | OWrite _ _ _ _ r _ _ => wf_href r
+  | OFind _ _ _ t r _ => wf_href r /\ wf_ty d t
+  | OPreset _ sv av => (sv < 2^32)%N /\ (av < 2^32)%N
   | _ => True
   end.
 
@@ -298,7 +305,7 @@ Proof.
   - by destruct (cur_world st).
 Qed.
 
-Lemma step_preset_inv cfg d qs st a sv av : in_ver sv -> in_ver av -> RInv d st ->
+Lemma step_preset_inv cfg d qs st a sv av : (sv < 2^32)%N -> (av < 2^32)%N -> RInv d st ->
   match step cfg d qs st (OPreset a sv av) with Some (st', _) => RInv d st' | None => False end.
 Proof.
   intros Hsv Hav HR. step_start Hcw HW HR. destruct (w !! a) as [s|] eqn:Hs; [|done].
@@ -507,4 +514,434 @@ Proof.
   1,2: pose proof (to_direct_cases cfg k s h0 HI Hh0) as Htd;
        destruct (to_direct cfg k s h0) as [[dh|]|p|]; [|done|done|done];
        apply RInv_add_directs; [done|by constructor].
+Qed.
+
+(* ---------------------------------------------------------------- query loops *)
+
+Definition wf_access (ad : darch) (acc : list access) : Prop :=
+  Forall (fun a => match a with ACol col _ _ => col < length (da_comps ad) | _ => True end) acc.
+
+Lemma index_of_lt c l i : index_of c l = Some i -> i < length l.
+Proof.
+  revert i. induction l as [|x l IH]; intros i; cbn [index_of]; [done|].
+  destruct (Nat.eqb x c); [intros [= <-]; cbn; lia|].
+  destruct (index_of c l) as [j|]; [|done]. cbn. intros [= <-]. specialize (IH j eq_refl). lia.
+Qed.
+
+Lemma accesses_wf d ad ps acc : accesses d ad ps = Some acc -> wf_access ad acc.
+Proof.
+  revert acc. induction ps as [|p ps IH]; intros acc; cbn [accesses]; [intros [= <-]; constructor|].
+  destruct (access_of d ad p) as [x|] eqn:Hx; [|done]. destruct (accesses d ad ps) as [xs|]; [|done].
+  intros [= <-]. constructor; [|by apply IH].
+  unfold access_of in Hx. destruct (p_type p); try (by injection Hx as <-); [|done].
+  destruct (index_of c (arch_comps ad)) as [i|] eqn:Hi; [|done]. injection Hx as <-.
+  apply index_of_lt in Hi. unfold arch_comps in Hi. by rewrite fmap_length in Hi.
+Qed.
+
+Definition wf_plan (archs : list darch) (plan : list (option (list access))) : Prop :=
+  Forall2 (fun ad oa => match oa with Some acc => wf_access ad acc | None => True end) archs plan.
+
+Lemma query_plan_wf d ps plan : query_plan d ps = Some plan -> wf_plan (wd_archs d) plan.
+Proof.
+  unfold query_plan. destruct (generate_query (wd_archs d) ps) as [e|r]; [done|].
+  generalize (wd_archs d). intros archs. revert r plan.
+  induction archs as [|a ar IH]; intros r plan.
+  - destruct r; [|done]. intros [= <-]. constructor.
+  - destruct r as [|[b|] rr]; [done| |].
+    + destruct (accesses d a b) as [x|] eqn:Hx; [|done].
+      match goal with |- context [match ?g with Some xs => _ | None => _ end] => destruct g as [xs|] eqn:Hg; [|done] end.
+      intros [= <-]. constructor; [by eapply accesses_wf|]. by eapply IH.
+    + match goal with |- context [_ <$> ?g] => destruct g as [xs|] eqn:Hg; [|done] end.
+      cbn. intros [= <-]. constructor; [done|]. by eapply IH.
+Qed.
+
+(** One closure call: succeeds on every live position, keeps the storage's shape, and hands out
+    32-bit direct handles. *)
+Lemma call_closure_ok ad acc : wf_access ad acc -> forall s i ver delta, SInv ad s -> i < len s -> in_ver ver ->
+  exists o s1 ds, call_closure s i ver delta acc = Some (o, s1, ds) /\ SInv ad s1 /\
+    len s1 = len s /\ version s1 = version s /\ ents s1 = ents s /\ slots s1 = slots s /\ head s1 = head s /\
+    cap s1 = cap s /\ created s1 = created s /\ destroyed s1 = destroyed s /\ Forall hpair32 ds.
+Proof.
+  induction 1 as [|a acc Ha Hacc IH]; intros s i ver delta HS Hi Hver.
+  - exists [], s, []. by split_and!.
+  - pose proof HS as (HI & Haid & Hlc). destruct a as [col m zst| |]; cbn [call_closure].
+    + assert (Hcl : col < length (cols s)) by lia.
+      destruct (lookup_lt_is_Some_2 _ _ Hcl) as [c Hc]. rewrite Hc.
+      pose proof (Forall_lookup_1 _ _ _ _ (i_lcols s HI) Hc) as Hlen. cbn beta in Hlen.
+      destruct (lookup_lt_is_Some_2 c i ltac:(lia)) as [v Hv]. unfold val in *. rewrite Hv.
+      destruct (m && negb zst && negb (delta =? 0)%N).
+      * destruct (write_col_some s col i (v + delta)%N HI Hcl Hi) as [s1 Hw]. rewrite Hw.
+        pose proof (write_col_SInv ad s col i _ s1 HS Hw) as HS1.
+        destruct (write_col_spec s col i _ s1 Hw) as (_ & _ & He & Hs & Hl & Hcp & Hvv & Hh & _ & Hcr & Hde & _).
+        destruct (IH s1 i ver delta HS1 ltac:(lia) Hver) as (o & s2 & ds & -> & HS2 & E1 & E2 & E3 & E4 & E5 & E6 & E7 & E8 & Hds).
+        exists (v :: o), s2, ds. split_and!; try done; congruence.
+      * destruct (IH s i ver delta HS Hi Hver) as (o & s2 & ds & -> & HS2 & E1 & E2 & E3 & E4 & E5 & E6 & E7 & E8 & Hds).
+        exists (v :: o), s2, ds. by split_and!.
+    + destruct (lookup_lt_is_Some_2 (ents s) i ltac:(rewrite (i_lents s HI); lia)) as [e He]. rewrite He.
+      destruct (IH s i ver delta HS Hi Hver) as (o & s2 & ds & -> & HS2 & E1 & E2 & E3 & E4 & E5 & E6 & E7 & E8 & Hds).
+      exists (o_handle e ++ o), s2, ds. by split_and!.
+    + destruct (IH s i ver delta HS Hi Hver) as (o & s2 & ds & -> & HS2 & E1 & E2 & E3 & E4 & E5 & E6 & E7 & E8 & Hds).
+      eexists _, s2, _. split_and!; try done. constructor; [|done].
+      destruct (hdense_direct_of s i HI Hi) as [_ Hk]. split; [exact Hk|exact (proj2 Hver)].
+Qed.
+
+Lemma iter_arch_ok ad acc ver delta break_at panic_at n : wf_access ad acc -> in_ver ver ->
+  forall fuel s i ord, SInv ad s -> len s = n ->
+  exists s1 recs ds ord1 stp, iter_arch fuel s i n ver delta acc ord break_at panic_at = Some (s1, recs, ds, ord1, stp) /\
+    SInv ad s1 /\ len s1 = n /\ Forall hpair32 ds.
+Proof.
+  intros Hacc Hver. induction fuel as [|fuel IH]; intros s i ord HS Hn; cbn [iter_arch].
+  - exists s, [], [], ord, SNone. by split_and!.
+  - destruct (Nat.ltb_spec i n) as [Hi|Hi]; cbn [negb].
+    2: { exists s, [], [], ord, SNone. by split_and!. }
+    pose proof HS as (HI & _).
+    assert ((len s <=? length (ents s)) = true) as -> by (apply Nat.leb_le; rewrite (i_lents s HI); lia).
+    rewrite (forallb_cols_len (len s) (len s) (cols s) (i_lcols s HI)) by lia. cbn [negb orb].
+    destruct (call_closure_ok ad acc Hacc s i ver delta HS ltac:(lia) Hver) as (o & s1 & ds & -> & HS1 & E1 & _ & _ & _ & _ & _ & _ & _ & Hds).
+    destruct (decide (panic_at = Some ord)); [eexists _, _, _, _, _; split_and!; [done|done|lia|done]|].
+    destruct (decide (break_at = Some ord)); [eexists _, _, _, _, _; split_and!; [done|done|lia|done]|].
+    destruct (IH s1 (S i) (S ord) HS1 ltac:(lia)) as (s2 & recs & ds2 & ord2 & stp & -> & HS2 & Hl2 & Hds2).
+    eexists _, _, _, _, _. split_and!; [done|done|done|]. by apply Forall_app.
+Qed.
+
+Lemma iter_world_ok delta break_at panic_at archs w : Forall2 SInv archs w ->
+  forall plan ord, wf_plan archs plan ->
+  exists w' recs ds stp, iter_world w plan delta ord break_at panic_at = Some (w', recs, ds, stp) /\
+    Forall2 SInv archs w' /\ Forall hpair32 ds.
+Proof.
+  induction 1 as [|ad s archs w HS HW IH]; intros plan ord Hp.
+  - exists [], [], [], SNone. destruct plan; by split_and!.
+  - inversion Hp as [|? oa ? pr Hoa Hpr]; subst. destruct oa as [acc|]; cbn [iter_world].
+    + pose proof HS as (HI & _).
+      destruct (iter_arch_ok ad acc (version s) delta break_at panic_at (len s) Hoa (proj1 (i_ver s HI)) (S (len s)) s 0 ord HS eq_refl)
+        as (s1 & recs & ds & ord1 & stp & -> & HS1 & _ & Hds).
+      destruct stp.
+      * destruct (IH pr ord1 Hpr) as (w2 & recs2 & ds2 & st2 & -> & HW2 & Hds2).
+        eexists _, _, _, _. split_and!; [done|by constructor|by apply Forall_app].
+      * eexists _, _, _, _. split_and!; [done|by constructor|done].
+      * eexists _, _, _, _. split_and!; [done|by constructor|done].
+    + destruct (IH pr ord Hpr) as (w2 & recs2 & ds2 & st2 & -> & HW2 & Hds2).
+      eexists _, _, _, _. split_and!; [done|by constructor|done].
+Qed.
+
+Lemma destroy_len cfg k ad s h : SInv ad s -> key32 h ->
+  match destroy cfg k s h with
+  | Ok s' (Some _) => len s' = len s - 1 /\ 0 < len s
+  | Ok s' None => s' = s
+  | _ => True
+  end.
+Proof.
+  intros (HI & _) Hk. destruct (destroy_cases cfg k s h HI Hk) as [|p Hp|dd e va vs' He Hkind Hva Hvs HI']; [done|done|].
+  unfold destroyed_state. cbn [len]. split; [done|]. rewrite <- (i_lents s HI). apply lookup_lt_Some in He. lia.
+Qed.
+
+Lemma ents_hpair32 s i e : Inv s -> ents s !! i = Some e -> hpair32 e.
+Proof.
+  intros HI He. destruct (fwd' s i e HI He) as (Hx & Hk & Hc & _ & _).
+  split.
+  - rewrite Hk. apply pack_key_lt; [by eapply cap_lt_pow24|apply (i_aid s HI)].
+  - destruct (i_ver s HI) as [_ Hv]. specialize (Hv _ _ Hx). cbn [s_ver] in Hv. apply Hv.
+Qed.
+
+Lemma iterd_arch_ok cfg ad acc ver0 nz decs : wf_access ad acc -> in_ver ver0 ->
+  forall idx1 s ord din, SInv ad s -> idx1 <= len s ->
+  match iterd_arch cfg idx1 s ver0 acc nz ord decs din with
+  | Ok (s1, recs, ds, ord1, stp, din1) _ | Panic _ (s1, recs, ds, ord1, stp, din1) => SInv ad s1 /\ Forall hpair32 ds
+  | UB => False
+  end.
+Proof.
+  intros Hacc Hver0. induction idx1 as [|idx IH]; intros s ord din HS Hle; cbn [iterd_arch]; [done|].
+  pose proof HS as (HI & _).
+  assert ((len s <=? length (ents s)) = true) as -> by (apply Nat.leb_le; rewrite (i_lents s HI); lia).
+  rewrite (forallb_cols_len (len s) (len s) (cols s) (i_lcols s HI)) by lia.
+  assert ((idx <? len s) = true) as -> by (apply Nat.ltb_lt; lia). cbn [negb orb].
+  set (ver := if iter_destroy_version_in_loop then version s else ver0).
+  assert (Hver : in_ver ver) by (unfold ver; destruct iter_destroy_version_in_loop; [apply (i_ver s HI)|done]).
+  destruct (call_closure_ok ad acc Hacc s idx ver 0%N HS ltac:(lia) Hver) as (o & s1 & ds & -> & _ & _ & _ & _ & _ & _ & _ & _ & _ & Hds).
+  destruct (lookup_lt_is_Some_2 (ents s) idx ltac:(rewrite (i_lents s HI); lia)) as [e He]. rewrite He.
+  pose proof (ents_hpair32 s idx e HI He) as Hep.
+  pose proof (destroy_SInv cfg KEnt ad s e HS (hpair32_key32 e Hep)) as Hd1.
+  pose proof (destroy_len cfg KEnt ad s e HS (hpair32_key32 e Hep)) as Hd2.
+  assert (Hcont : forall s1 din1, SInv ad s1 -> idx <= len s1 ->
+    match match iterd_arch cfg idx s1 ver0 acc nz (S ord) decs din1 with
+          | Ok (s2, recs, ds2, ord2, st, din2) _ => Ok (s2, visit_record s o :: recs, ds ++ ds2, ord2, st, din2) tt
+          | Panic p (s2, recs, ds2, ord2, st, din2) => Panic p (s2, visit_record s o :: recs, ds ++ ds2, ord2, st, din2)
+          | UB => UB end with
+    | Ok (s1, recs, ds, ord1, stp, din1) _ | Panic _ (s1, recs, ds, ord1, stp, din1) => SInv ad s1 /\ Forall hpair32 ds
+    | UB => False end).
+  { intros s1' din1 HS1 Hl1. specialize (IH s1' (S ord) din1 HS1 Hl1).
+    destruct (iterd_arch cfg idx s1' ver0 acc nz (S ord) decs din1) as [[[[[[s2 recs] ds2] ord2] st] din2] []|p [[[[[s2 recs] ds2] ord2] st] din2]|]; [| |done].
+    - destruct IH as [? ?]. split; [done|by apply Forall_app].
+    - destruct IH as [? ?]. split; [done|by apply Forall_app]. }
+  destruct (nth_decision decs ord).
+  - apply Hcont; [done|lia].
+  - done.
+  - destruct (destroy cfg KEnt s e) as [s' [row|]|p s'|]; [| | |done].
+    + destruct (drop_row nz din) as [fired din1]. destruct fired; [done|]. apply Hcont; [done|lia].
+    + destruct (drop_row nz din) as [fired din1]. destruct fired; [done|]. subst s'. apply Hcont; [done|lia].
+    + subst s'. done.
+  - destruct (destroy cfg KEnt s e) as [s' [row|]|p s'|]; [| | |done].
+    + destruct (drop_row nz din) as [fired din1]. by destruct fired.
+    + destruct (drop_row nz din) as [fired din1]. by destruct fired.
+    + subst s'. done.
+  - done.
+Qed.
+
+Lemma iterd_world_ok cfg d decs archs w : Forall2 SInv archs w ->
+  forall plan ord din, wf_plan archs plan ->
+  match iterd_world cfg d archs w plan ord decs din with
+  | Ok (w', recs, ds, din1) _ | Panic _ (w', recs, ds, din1) => Forall2 SInv archs w' /\ Forall hpair32 ds
+  | UB => False
+  end.
+Proof.
+  induction 1 as [|ad s archs w HS HW IH]; intros plan ord din Hp.
+  - cbn. split; [constructor|done].
+  - inversion Hp as [|? oa ? pr Hoa Hpr]; subst. destruct oa as [acc|]; cbn [iterd_world].
+    + pose proof HS as (HI & _).
+      pose proof (iterd_arch_ok cfg ad acc (version s) (nz_cols d ad) decs Hoa (proj1 (i_ver s HI)) (len s) s ord din HS (le_n _)) as Ha.
+      destruct (iterd_arch cfg (len s) s (version s) acc (nz_cols d ad) ord decs din)
+        as [[[[[[s1 recs] ds] ord1] stp] din1] []|p [[[[[s1 recs] ds] ord1] stp] din1]|]; [| |done].
+      * destruct Ha as [HS1 Hds]. destruct stp; [|split; [by constructor|done]|split; [by constructor|done]].
+        specialize (IH pr ord1 din1 Hpr).
+        destruct (iterd_world cfg d archs w pr ord1 decs din1) as [[[[w2 recs2] ds2] din2] []|p [[[w2 recs2] ds2] din2]|]; [| |done].
+        -- destruct IH. split; [by constructor|by apply Forall_app].
+        -- destruct IH. split; [by constructor|by apply Forall_app].
+      * destruct Ha as [HS1 Hds]. split; [by constructor|done].
+    + specialize (IH pr ord din Hpr).
+      destruct (iterd_world cfg d archs w pr ord decs din) as [[[[w2 recs2] ds2] din2] []|p [[[w2 recs2] ds2] din2]|]; [| |done].
+      * destruct IH. split; [by constructor|done].
+      * destruct IH. split; [by constructor|done].
+Qed.
+
+Lemma wf_plan_lookup archs plan a ad acc : wf_plan archs plan -> archs !! a = Some ad -> plan !! a = Some (Some acc) -> wf_access ad acc.
+Proof. intros Hp Ha Hpl. by apply (Forall2_lookup_lr _ _ _ _ _ _ Hp Ha Hpl). Qed.
+
+Lemma find_arch_lt archs id a : find_arch archs id = Some a -> a < length archs.
+Proof.
+  revert a. induction archs as [|x l IH]; intros a; cbn [find_arch]; [done|].
+  destruct (N.eqb (da_id x) id); [intros [= <-]; cbn; lia|].
+  destruct (find_arch l id) as [j|]; [|done]. cbn. intros [= <-]. specialize (IH j eq_refl). lia.
+Qed.
+
+Definition key_in (d : wdecl) (h0 : handle) (ky : key) : Prop :=
+  match ky with KTyped a h => h = h0 /\ a < length (wd_archs d) | KAny h => h = h0 | KStop _ => False end.
+
+Lemma find_query_ok cfg d w plan k ky delta h0 : WInv d w -> wf_plan (wd_archs d) plan -> hpair32 h0 ->
+  key_in d h0 ky ->
+  match find_query cfg d w plan k ky delta with
+  | Ok w' (_, ds) => WInv d w' /\ Forall hpair32 ds
+  | Panic _ w' => w' = w
+  | UB => False
+  end.
+Proof.
+  intros HW Hp Hh0 Hky. unfold find_query.
+  assert (Hd : match dispatch_world d k ky with ROk (a, h) => h = h0 /\ a < length (wd_archs d) | RPanic _ => True | RUB => False end).
+  { destruct ky as [h|a h|o]; cbn [dispatch_world key_in] in *; [|done|done].
+    destruct (find_arch _ _) as [a|] eqn:Hf; [|done]. split; [done|by eapply find_arch_lt]. }
+  destruct (dispatch_world d k ky) as [[a h]|p|]; [|done|done]. destruct Hd as [-> Ha].
+  destruct (lookup_lt_is_Some_2 _ _ Ha) as [ad Had].
+  destruct (lookup_lt_is_Some_2 plan a ltac:(rewrite <- (Forall2_length _ _ _ Hp); done)) as [oa Hoa].
+  destruct (lookup_lt_is_Some_2 w a ltac:(rewrite (WInv_length d w HW); done)) as [s Hs].
+  rewrite Hoa. unfold world in *. rewrite Hs. destruct oa as [acc|]; [|done].
+  pose proof (WInv_lookup d w a ad s HW Had Hs) as HS. pose proof HS as (HI & _).
+  pose proof (resolve_for_cases cfg k s h0 HI (hpair32_key32 _ Hh0)) as Hr.
+  destruct (resolve_for cfg k s h0) as [[i|]|p|]; [|done|done|done].
+  assert ((len s <=? length (ents s)) = true) as -> by (apply Nat.leb_le; rewrite (i_lents s HI); lia).
+  rewrite (forallb_cols_len (len s) (len s) (cols s) (i_lcols s HI)) by lia.
+  assert ((i <? len s) = true) as -> by (by apply Nat.ltb_lt). cbn [negb orb].
+  destruct (call_closure_ok ad acc (wf_plan_lookup _ _ _ _ _ Hp Had Hoa) s i (version s) delta HS Hr (proj1 (i_ver s HI)))
+    as (o & s1 & ds & -> & HS1 & _ & _ & _ & _ & _ & _ & _ & _ & Hds).
+  split; [by eapply WInv_upd|done].
+Qed.
+
+Lemma step_write_inv cfg d qs st p b k t r c v : wf_href r -> RInv d st ->
+  match step cfg d qs st (OWrite p b k t r c v) with Some (st', _) => RInv d st' | None => False end.
+Proof.
+  intros Hr HR. step_start Hcw HW HR.
+  destruct (get_href st k r) as [h0|] eqn:Hg; [|done].
+  pose proof (get_href_pair32 d st k r h0 HR Hr Hg) as Hh0.
+  pose proof (make_key_handle cfg d k t h0) as Hmk.
+  destruct (make_key cfg d k t h0) as [kh|ka kh|obs] eqn:Hky; [| |done]; subst kh.
+  all: cbv beta iota.
+  2: destruct (ka =? b); [|done].
+  all: destruct (wd_archs d !! b) as [bd|] eqn:Hb; [|done].
+  all: destruct (index_of c (arch_comps bd)) as [colb|] eqn:Hcolb; [|done].
+  all: assert (Hfin : forall a ad s col i, wd_archs d !! a = Some ad -> w !! a = Some s -> index_of c (arch_comps ad) = Some col -> i < len s ->
+         match (if negb (len s <=? length (ents s)) || negb (forallb (fun x => len s <=? length x) (cols s)) || negb (i <? len s) then None
+                else if is_zst d c then ret st [1%N]
+                else match write_col s col i v with Some s' => ret (set_world st (upd w a s')) [1%N] | None => None end)
+         with Some (st', _) => RInv d st' | None => False end).
+  1,3: (intros a ad s col i Ha Hs Hcol Hi; pose proof (WInv_lookup d w a ad s HW Ha Hs) as HS; pose proof HS as (HI & _ & Hlc);
+       assert ((len s <=? length (ents s)) = true) as -> by (apply Nat.leb_le; rewrite (i_lents s HI); lia);
+       rewrite (forallb_cols_len (len s) (len s) (cols s) (i_lcols s HI)) by lia;
+       assert ((i <? len s) = true) as -> by (by apply Nat.ltb_lt); cbn [negb orb];
+       destruct (is_zst d c); [done|];
+       apply index_of_lt in Hcol; unfold arch_comps in Hcol; rewrite fmap_length in Hcol;
+       destruct (write_col_some s col i v HI ltac:(lia) Hi) as [s' Hw]; rewrite Hw;
+       apply RInv_set_world; [done|]; eapply WInv_upd; [done|done|by eapply write_col_SInv]).
+  all: destruct p.
+  (* WFind / WFindB: world-level dispatch *)
+  all: try (match goal with |- context [if ?g then ret _ [6%N] else _] => destruct g; [done|] end;
+       match goal with |- context [dispatch_world _ _ ?ky] => pose proof (dispatch_world_cases d k ky) as Hd;
+          destruct (dispatch_world d k ky) as [[a h]|pp|]; [|done|done] end;
+       assert (h = h0) as -> by (destruct Hd as [[= _ ->]|[= ->]]; done);
+       destruct (wd_archs d !! a) as [ad|] eqn:Ha; [|done]; destruct (w !! a) as [s|] eqn:Hs; [|done];
+       destruct (index_of c (arch_comps ad)) as [col|] eqn:Hcol; [|done];
+       pose proof (WInv_lookup d w a ad s HW Ha Hs) as (HI & _);
+       pose proof (resolve_for_cases cfg k s h0 HI (hpair32_key32 _ Hh0)) as Hrf;
+       destruct (resolve_for cfg k s h0) as [[i|]|pp|]; [|done|done|done];
+       by eapply Hfin).
+  (* archetype-level paths *)
+  all: match goal with |- context [dispatch_arch _ _ _ ?ky] => pose proof (dispatch_arch_cases d k b ky) as Hd;
+          destruct (dispatch_arch d k b ky) as [h|]; [|done] end.
+  all: assert (h = h0) as -> by (destruct (Hd _ eq_refl) as [[= _ ->]|[= ->]]; done).
+  all: destruct (w !! b) as [s|] eqn:Hs; [|done].
+  all: pose proof (WInv_lookup d w b bd s HW Hb Hs) as (HI & _).
+  all: pose proof (resolve_for_cases cfg k s h0 HI (hpair32_key32 _ Hh0)) as Hrf.
+  all: destruct (resolve_for cfg k s h0) as [[i|]|pp|]; [|done|done|done].
+  all: specialize (Hfin b bd s colb i Hb Hs Hcolb Hrf).
+  all: assert (E1 : (len s <=? length (ents s)) = true) by (apply Nat.leb_le; rewrite (i_lents s HI); lia).
+  all: assert (E2 : (i <? len s) = true) by (by apply Nat.ltb_lt).
+  all: rewrite E1, (forallb_cols_len (len s) (len s) (cols s) (i_lcols s HI)), E2 in * by lia; cbn [negb orb] in *; exact Hfin.
+Qed.
+
+Lemma make_key_in cfg d k t h0 : wf_ty d t -> match make_key cfg d k t h0 with KStop _ => True | ky => key_in d h0 ky end.
+Proof.
+  intros Ht. unfold make_key. destruct (match k with KEnt => _ | KDir => _ end); [done|].
+  destruct t as [|a|a|a]; [done| | |done].
+  - destruct (wd_archs d !! a) eqn:Ha; [|done]. destruct (id_ok _ _ _); [|done]. split; [done|by eapply lookup_lt_Some].
+  - destruct (wd_archs d !! a) eqn:Ha; [|done]. destruct (debug cfg && _); [done|]. split; [done|by eapply lookup_lt_Some].
+Qed.
+
+Lemma step_find_inv cfg d qs st q borrow k t r delta : wf_href r -> wf_ty d t -> RInv d st ->
+  match step cfg d qs st (OFind q borrow k t r delta) with Some (st', _) => RInv d st' | None => False end.
+Proof.
+  intros Hr Ht HR. step_start Hcw HW HR.
+  destruct (get_href st k r) as [h0|] eqn:Hg; [|done].
+  pose proof (get_href_pair32 d st k r h0 HR Hr Hg) as Hh0.
+  pose proof (make_key_in cfg d k t h0 Ht) as Hmk.
+  destruct (make_key cfg d k t h0) as [kh|ka kh|obs] eqn:Hky; [| |done].
+  all: cbv beta iota.
+  2: destruct (negb (q <? 2)); [done|].
+  all: destruct (qs !! q ≫= query_plan d) as [plan|] eqn:Hq; [|done].
+  all: assert (Hp : wf_plan (wd_archs d) plan) by (destruct (qs !! q) as [ps|]; [|done]; by eapply query_plan_wf).
+  all: match goal with |- context [find_query _ _ _ _ _ ?ky _] =>
+         pose proof (find_query_ok cfg d w plan k ky delta h0 HW Hp Hh0 Hmk) as Hf;
+         destruct (find_query cfg d w plan k ky delta) as [w' [obs ds]|p w'|]; [| |done] end.
+  all: try (destruct Hf as [HW' Hds]; apply RInv_add_directs; [|done]; by apply RInv_set_world).
+  all: subst w'; by apply RInv_set_world.
+Qed.
+
+Lemma step_iter_inv cfg d qs st q borrow break_at panic_at delta : RInv d st ->
+  match step cfg d qs st (OIter q borrow break_at panic_at delta) with Some (st', _) => RInv d st' | None => False end.
+Proof.
+  intros HR. step_start Hcw HW HR.
+  destruct (qs !! q ≫= query_plan d) as [plan|] eqn:Hq; [|done].
+  assert (Hp : wf_plan (wd_archs d) plan) by (destruct (qs !! q) as [ps|]; [|done]; by eapply query_plan_wf).
+  destruct (iter_world_ok delta break_at panic_at (wd_archs d) w HW plan 0 Hp) as (w' & recs & ds & stp & -> & HW' & Hds).
+  apply RInv_add_directs; [|done]. by apply RInv_set_world.
+Qed.
+
+Lemma step_iterd_inv cfg d qs st q decs : RInv d st ->
+  match step cfg d qs st (OIterD q decs) with Some (st', _) => RInv d st' | None => False end.
+Proof.
+  intros HR. step_start Hcw HW HR.
+  destruct (qs !! q ≫= query_plan d) as [plan|] eqn:Hq; [|done].
+  assert (Hp : wf_plan (wd_archs d) plan) by (destruct (qs !! q) as [ps|]; [|done]; by eapply query_plan_wf).
+  pose proof (iterd_world_ok cfg d decs (wd_archs d) w HW plan 0 (drop_in st) Hp) as Hi.
+  destruct (iterd_world cfg d (wd_archs d) w plan 0 decs (drop_in st)) as [[[[w' recs] ds] din] []|p [[[w' recs] ds] din]|]; [| |done].
+  all: destruct Hi as [HW' Hds]; apply RInv_set_drop_in; apply RInv_add_directs; [|done]; by apply RInv_set_world.
+Qed.
+
+(** Every operation of the run language, in every configuration, keeps the run invariant and never
+    reaches undefined behaviour. *)
+Theorem step_inv cfg d qs st o : wf_decl d -> wf_op d o -> RInv d st ->
+  match step cfg d qs st o with Some (st', _) => RInv d st' | None => False end.
+Proof.
+  intros Hwf Ho HR. destruct o.
+  - by apply step_new_inv.
+  - by apply step_clone_inv.
+  - by apply step_switch_inv.
+  - by apply step_drop_inv.
+  - by apply (step_create_inv cfg d qs st a v false).
+  - by apply (step_create_inv cfg d qs st a v true).
+  - by eapply step_keyed_inv.
+  - by eapply step_keyed_inv.
+  - by eapply step_keyed_inv.
+  - by apply step_write_inv.
+  - destruct Ho. by apply step_find_inv.
+  - pose proof (step_readall_inv cfg d qs st p a HR) as H. destruct (step _ _ _ _ _) as [[st' o]|]; [by subst|done].
+  - by apply step_iter_inv.
+  - by apply step_iterd_inv.
+  - by apply step_simple_inv.
+  - pose proof (step_dump_inv cfg d qs st a HR) as H. destruct (step _ _ _ _ _) as [[st' o]|]; [by subst|done].
+  - destruct Ho. by apply step_preset_inv.
+  - pose proof (step_events_inv cfg d qs st l HR) as H. destruct (step _ _ _ _ _) as [[st' o]|]; [by subst|done].
+  - by apply step_clearev_inv.
+  - by apply step_simple_inv.
+  - by apply step_simple_inv.
+  - by apply step_simple_inv.
+  - by apply step_simple_inv.
+Qed.
+
+Lemma rs0_inv d : RInv d rs0.
+Proof. split_and!; constructor. Qed.
+
+(** States reachable by a well-formed history. *)
+Inductive reach (cfg : config) (d : wdecl) (qs : list (list qparam)) : rstate -> Prop :=
+  | reach0 : reach cfg d qs rs0
+  | reachS st o st' obs : reach cfg d qs st -> wf_op d o -> step cfg d qs st o = Some (st', obs) -> reach cfg d qs st'.
+
+Theorem reach_inv cfg d qs st : wf_decl d -> reach cfg d qs st -> RInv d st.
+Proof.
+  intros Hwf. induction 1 as [|st o st' obs Hr IH Ho Hs]; [apply rs0_inv|].
+  pose proof (step_inv cfg d qs st o Hwf Ho IH) as H. by rewrite Hs in H.
+Qed.
+
+(** No well-formed history ever reaches undefined behaviour: every observation of the run is a
+    step observation, never the UB marker path of [run_from]. *)
+Fixpoint run_states (cfg : config) (d : wdecl) (qs : list (list qparam)) (st : rstate) (ops : list op) : option (list rstate) :=
+  match ops with
+  | [] => Some []
+  | o :: rest => match step cfg d qs st o with
+                 | Some (st', _) => (fun l => st' :: l) <$> run_states cfg d qs st' rest
+                 | None => None
+                 end
+  end.
+
+Theorem run_never_ub cfg d qs ops : wf_decl d -> Forall (wf_op d) ops -> forall st, RInv d st ->
+  exists sts, run_states cfg d qs st ops = Some sts /\ Forall (RInv d) sts /\ length sts = length ops.
+Proof.
+  intros Hwf. induction 1 as [|o ops Ho Hops IH]; intros st HR; cbn [run_states].
+  - exists []. by split_and!.
+  - pose proof (step_inv cfg d qs st o Hwf Ho HR) as Hs.
+    destruct (step cfg d qs st o) as [[st' obs]|]; [|done].
+    destruct (IH st' Hs) as (sts & -> & Hf & Hl). exists (st' :: sts). cbn. split_and!; [done|by constructor|by rewrite Hl].
+Qed.
+
+
+(* ---------------------------------------------------------------- the boolean side conditions *)
+
+Lemma wf_declb_true d : wf_declb d = true -> wf_decl d.
+Proof. unfold wf_declb, wf_decl. rewrite forallb_forall, Forall_forall. intros H a Ha. apply N.ltb_lt. apply H. by apply elem_of_list_In. Qed.
+
+Lemma wf_hrefb_true r : wf_hrefb r = true -> wf_href r.
+Proof. destruct r; cbn; try done. rewrite andb_true_iff, !N.ltb_lt. done. Qed.
+
+Lemma wf_opb_true d o : wf_opb d o = true -> wf_op d o.
+Proof.
+  destruct o; cbn [wf_opb wf_op]; try done; try apply wf_hrefb_true.
+  - by intros ?%Nat.eqb_eq.
+  - rewrite andb_true_iff. intros [H1 H2]. split; [by apply wf_hrefb_true|]. destruct t; cbn in *; try done. by apply Nat.ltb_lt.
+  - rewrite andb_true_iff, !N.ltb_lt. done.
+Qed.
+
+(** The form the check uses: a history that passes the boolean test never reaches undefined
+    behaviour in the model and keeps every storage of every world invariant, in every configuration. *)
+Theorem wf_case_never_ub cfg d qs ops : wf_case d ops = true ->
+  exists sts, run_states cfg d qs rs0 ops = Some sts /\ Forall (RInv d) sts /\ length sts = length ops.
+Proof.
+  unfold wf_case. rewrite andb_true_iff. intros [Hd Ho].
+  apply run_never_ub; [by apply wf_declb_true| |apply rs0_inv].
+  rewrite forallb_forall in Ho. apply Forall_forall. intros o Hin. apply wf_opb_true, Ho. by apply elem_of_list_In.
 Qed.
